@@ -26,8 +26,12 @@ type multiSummary struct {
 // was alone in the bucket keeps being used after another ledger joins) and one
 // alone in bucket "solo". Controllers are deliberately NOT re-opened unless the
 // history says so.
+// multiViaHTTP makes runMulti route every ledger's controller through the HTTP API (set by the *HTTP variants).
+var multiViaHTTP bool
+
 func runMulti(rt *rapid.T, st *stats.Collector, focus []string, gapCheck bool) (*World, *multiSummary) {
 	w := NewWorld(rt, st, env.Options{}, focus...)
+	w.ViaHTTP = multiViaHTTP
 	sum := &multiSummary{}
 	fs := GenFeatures(rt)
 	w.AddLedger("s1", "shared", fs)
@@ -89,6 +93,17 @@ func runMulti(rt *rapid.T, st *stats.Collector, focus []string, gapCheck bool) (
 					}
 				} else {
 					out = w.CreateTx(l, r)
+				}
+				if out.Kind == ErrOther && strings.HasPrefix(fault, "deadlock") && (strings.Contains(out.Err.Error(), "deadlock") || strings.Contains(out.Err.Error(), "HTTP 500")) {
+					// the injected deadlock hit a statement outside the section the controller retries (a lookup made before
+					// the write begins): the caller is answered with that error - a failed write, which must leave no trace
+					st.Class("injected-deadlock-answered-to-the-caller")
+					if after := w.Env.Sim.Dump(); !reflect.DeepEqual(before, after) {
+						w.V("C14", "ledger %s: create %s failed (%v, %s) but left a trace\n%s\n%s", l.Name, r.describe(), out.Err, fault, dumpDiff(before, after), w.allHistories())
+					}
+					sum.Failures++
+					afterCommit(l, out)
+					return
 				}
 				if out.Kind == ErrReferenceConflict {
 					if after := w.Env.Sim.Dump(); !reflect.DeepEqual(before, after) {
